@@ -406,7 +406,15 @@ func runRecipes(c *vp.Child, fx *fixture, w *winWriter) {
 				case 2: // unprotected: the first refusal ends the context function
 					body += rc.src
 				}
-				src := "local SENT = ...\n" + recipePre[rc.name] + "\nreturn runtime.callcontext({flags=\"" + flagString(s) + "\"}, function()\n" + body + "\nend)"
+				// limits whose flags the set already contains are added to every other
+				// definition: flags and limits given together must both take effect
+				lim := ""
+				if idx%2 == 0 && s&1 != 0 {
+					lim = ", kill={cpu=1000000000}"
+				} else if idx%2 == 0 && s&2 != 0 {
+					lim = ", kill={memory=1000000000}"
+				}
+				src := "local SENT = ...\n" + recipePre[rc.name] + "\nreturn runtime.callcontext({flags=\"" + flagString(s) + "\"" + lim + "}, function()\n" + body + "\nend)"
 				se, err := newSession(fx)
 				if err != nil {
 					c.Violation("harness", "session setup", err.Error(), "")
